@@ -194,7 +194,7 @@ def r2_recursion(ctx, F):
                    "no cycle through the `%s` trampoline avoids stack_guard()/with_call_stack" % op)
 
 
-def r2b_guard_balance(ctx, F):
+def r2b_guard_balance(ctx, F, rule="C07.R2"):
     """the recursion-depth counter is never left incremented without a StackGuard that restores it: on every path
     from a write of the thread-local depth (outside Drop) to return, a StackGuard value is constructed"""
     n = 0
@@ -213,16 +213,18 @@ def r2b_guard_balance(ctx, F):
             ok = c.bb in guards or (bool(guards) and f.must_pass(c.bb, guards, f.returns()))
             # the guard may also be built in the same block, before/after the call terminator
             ok = ok or any(g == c.target for g in guards)
-            ctx.check(ok, "C07.R2", "depth-write-yields-guard:" + short_fn(top_fn(F, f).qpath),
+            # ... or before the write (then it dominates it)
+            ok = ok or any(f.dominates(g, c.bb) for g in guards)
+            ctx.check(ok, rule, "depth-write-yields-guard:" + short_fn(top_fn(F, f).qpath),
                       "every path from the write of the recursion depth to return constructs the StackGuard that "
                       "restores it",
                       "`%s` writes the thread-local recursion depth and can return without producing a StackGuard: "
                       "each failed comparison leaves the depth incremented, and after enough failures every "
                       "comparison on the thread fails with 'Too many recursion levels'" % short_fn(top_fn(F, f).qpath),
                       fn=f, line=c.line)
-    ctx.floor("C07.R2", "writes of the recursion depth outside Drop", n, 1)
+    ctx.floor(rule, "writes of the recursion depth outside Drop", n, 1)
     dr = F.find(r"<values::stack_guard::StackGuard as std::ops::Drop>::drop")
-    ctx.check(bool(dr), "C07.R2", "StackGuard:has-drop", "StackGuard restores the depth in Drop",
+    ctx.check(bool(dr), rule, "StackGuard:has-drop", "StackGuard restores the depth in Drop",
               "StackGuard no longer has a Drop impl")
 
 
@@ -626,37 +628,6 @@ def r10_module_slots(ctx, F):
                   "Module::%s writes a slot without allocating it first" % nm, fn=f)
 
 
-def r11_depth_counter(ctx, F, rule="C07.R11"):
-    """the thread-local recursion-depth counter of equals/compare (values/stack_guard.rs) is raised only together with
-    the guard that lowers it again: outside StackGuard's Drop, every path from a write of the counter to a return
-    constructs a StackGuard. A raise without a guard (e.g. on the path that reports "too many recursion levels") leaks
-    one level per failure, so what a thread can evaluate depends on what it evaluated before."""
-    fs = [f for f in F.fns.values() if f.crate == "starlark" and "values/stack_guard.rs" in f.span]
-    n = 0
-    for f in fs:
-        t = top_fn(F, f)
-        if re.search(r"StackGuard as std::ops::Drop>::drop", t.qpath):
-            continue
-        sets = [c for c in f.calls if c.bb not in f.cleanup and re.search(r"cell::Cell::<T>::(set|replace|update)$", c.name)
-                and "u32" in c.full]
-        for c in sets:
-            n += 1
-            guards = [st.bb for st in f.stmts if st.kind.endswith("stack_guard::StackGuard::StackGuard")
-                      or st.kind.endswith("stack_guard::StackGuard")]
-            ctx.check(bool(guards) and f.must_pass(c.bb, guards, f.returns()),
-                      rule, "depth-raise-has-guard:" + short_fn(f.qpath),
-                      "every path from the counter write to a return builds the StackGuard that undoes it",
-                      "`%s` writes the thread-local depth counter and can return without building a StackGuard: the "
-                      "level is never given back (each \"too many recursion levels\" error lowers the limit of that "
-                      "thread for good)" % short_fn(f.qpath), fn=f, line=c.line)
-    ctx.floor(rule, "writes of the depth counter outside Drop", n, 1)
-    dr = F.one(r"<values::stack_guard::StackGuard as std::ops::Drop>::drop$")
-    cl = list(F.closures_of(dr))
-    ctx.check(any(re.search(r"Cell::<T>::set$", c.name) for g in [dr] + cl for c in g.calls), rule,
-              "guard-drop-lowers", "dropping the guard writes the counter back",
-              "StackGuard::drop no longer restores the depth counter", fn=dr)
-
-
 def op_name(k):
     return {"Add": "+", "Sub": "-", "Mul": "*"}[k.rsplit(":", 2)[1]]
 
@@ -676,4 +647,3 @@ def run(ctx):
     r8b_slicing(ctx, F)
     r9_signed_arith(ctx, F)
     r10_module_slots(ctx, F)
-    r11_depth_counter(ctx, F)
